@@ -14,7 +14,8 @@ Parameters of the model (everything that is a template argument or another compo
   on the (stateful) coarsening object (`none` = `error::empty_level`), `coarseOp` is `C.coarse_operator`
   (`galerkin` / `scaledGalerkin` below, which are products through `backend::product`);
 * `sm : Relax.Smoother K S` — the relaxation class;
-* `direct : CRS K → Vec K → Vec K` — `Backend::direct_solver` (skyline LU) as a function of matrix and rhs.
+* `direct : CRS K → Vec K → Vec K` — `Backend::direct_solver` (skyline LU) as a function of matrix and rhs, and
+  `directOk : CRS K → Bool` — whether its constructor succeeds (`false` = zero pivot ⇒ `precondition` throws).
 
 Scratch is state: the per-level vectors `f, u, t` are explicit (`Scratch`), passed in and returned.
 -/
@@ -99,7 +100,7 @@ def initLoop (prm : Params) (pol : Policy K) (sm : Relax.Smoother K S) :
     else .ok (levels, some A)
 
 /-- `amg::do_init` on an already row-sorted matrix -/
-def doInit (prm : Params) (pol : Policy K) (sm : Relax.Smoother K S) (A : CRS K) :
+def doInit (prm : Params) (pol : Policy K) (sm : Relax.Smoother K S) (directOk : CRS K → Bool) (A : CRS K) :
     Except BuildErr (List (Level K S)) :=
   if A.nrows ≠ A.ncols then .error .precondition else
   match initLoop prm pol sm (A.nrows + 2) [] A with
@@ -108,6 +109,7 @@ def doInit (prm : Params) (pol : Policy K) (sm : Relax.Smoother K S) (A : CRS K)
   | .ok (levels, some Ac) =>
     if Ac.nrows > prm.coarse_enough then .ok levels                   -- max_levels reached: no coarse solve
     else if prm.direct_coarse then
+      if !directOk Ac then .error .precondition else
       .ok (levels ++ [{ rows := Ac.nrows, solve := some Ac, A := if levels.isEmpty then some Ac else none }])
     else
       match mkLevel sm Ac with
@@ -115,12 +117,12 @@ def doInit (prm : Params) (pol : Policy K) (sm : Relax.Smoother K S) (A : CRS K)
       | .ok lv => .ok (levels ++ [lv])
 
 /-- the constructor taking a user matrix: copy, `sort_rows`, `do_init` -/
-def build (prm : Params) (pol : Policy K) (sm : Relax.Smoother K S) (A : CRS K) :
+def build (prm : Params) (pol : Policy K) (sm : Relax.Smoother K S) (directOk : CRS K → Bool) (A : CRS K) :
     Except BuildErr (List (Level K S)) :=
-  doInit prm pol sm (sortRows A)
+  doInit prm pol sm directOk (sortRows A)
 
 /-- `level::rebuild` -/
-def rebuildLevel (pol : Policy K) (sm : Relax.Smoother K S) (lv : Level K S) (A : CRS K) :
+def rebuildLevel (pol : Policy K) (sm : Relax.Smoother K S) (directOk : CRS K → Bool) (lv : Level K S) (A : CRS K) :
     Except BuildErr (Level K S × CRS K) :=
   let lvA : Level K S := if lv.A.isSome then { lv with A := some A } else lv
   let r : Except BuildErr (Level K S) :=
@@ -134,32 +136,43 @@ def rebuildLevel (pol : Policy K) (sm : Relax.Smoother K S) (lv : Level K S) (A 
   match r with
   | .error e => .error e
   | .ok lv1 =>
+    if lv1.solve.isSome && !directOk A then .error .precondition else
     let lv2 : Level K S := if lv1.solve.isSome then { lv1 with solve := some A } else lv1
     match lv2.bP, lv2.bR with
     | some bP, some bR => .ok (lv2, sortRows (pol.coarseOp A bP bR))
     | _, _ => .ok (lv2, A)
 
 /-- `amg::rebuild(A)` on the level list -/
-def rebuildLevels (pol : Policy K) (sm : Relax.Smoother K S) :
+def rebuildLevels (pol : Policy K) (sm : Relax.Smoother K S) (directOk : CRS K → Bool) :
     List (Level K S) → CRS K → Except BuildErr (List (Level K S))
   | [], _ => .ok []
   | lv :: rest, A =>
-    match rebuildLevel pol sm lv A with
+    match rebuildLevel pol sm directOk lv A with
     | .error e => .error e
     | .ok (lv', A') =>
-      match rebuildLevels pol sm rest A' with
+      match rebuildLevels pol sm directOk rest A' with
       | .error e => .error e
       | .ok rest' => .ok (lv' :: rest')
 
 /-- `amg::rebuild(M)`: the preconditions, copy + sort, then level by level -/
-def rebuild (prm : Params) (pol : Policy K) (sm : Relax.Smoother K S) (levels : List (Level K S)) (A : CRS K) :
+def rebuild (prm : Params) (pol : Policy K) (sm : Relax.Smoother K S) (directOk : CRS K → Bool)
+    (levels : List (Level K S)) (A : CRS K) :
     Except BuildErr (List (Level K S)) :=
   let n0 := match levels with
     | lv :: _ => (match lv.A with | some A0 => A0.nrows | none => lv.rows)
     | [] => 0
   if !prm.allow_rebuild then .error .precondition
   else if A.nrows ≠ n0 ∨ A.ncols ≠ A.nrows then .error .precondition
-  else rebuildLevels pol sm levels (sortRows A)
+  else rebuildLevels pol sm directOk levels (sortRows A)
+
+/-- a finite sequence of `rebuild(A')` calls on the level list -/
+def rebuildMany (pol : Policy K) (sm : Relax.Smoother K S) (directOk : CRS K → Bool) :
+    List (Level K S) → List (CRS K) → Except BuildErr (List (Level K S))
+  | ls, [] => .ok ls
+  | ls, A' :: rest =>
+    match rebuildLevels pol sm directOk ls (sortRows A') with
+    | .error e => .error e
+    | .ok ls' => rebuildMany pol sm directOk ls' rest
 
 end build
 
